@@ -32,7 +32,8 @@ def classOutcome (name : String) : Out :=
   | "update-without-metadata" => Validate.insert ds 16 2
   | "oversized-batch" => batchWrite ds (List.replicate 101 (16, 2))
   | "search-wrong-dimension" => search ds 7 3 20 32
-  | "update-absent-id" | "remove-absent-id" | "insert-existing-id" | "remove-twice" => applyItem false true
+  | "update-absent-id" | "remove-absent-id" | "insert-existing-id" | "remove-twice"
+  | "insert-oversized-metadata" | "update-oversized-metadata" => applyItem false true
   | "batch-duplicate-and-absent" => batchWrite ds [(16, 2), (16, 2), (16, 2), (16, 2)]
   -- lookups of unknown / malformed dataset or partition ids are answered with an error before any primitive is reached
   | "unknown-dataset" | "malformed-dataset-id" | "search-partitions-unknown-partition" | "delete-malformed-id"
